@@ -129,31 +129,46 @@ def best_filtered_leaves(instance, filt, limit=200000):
     return sorted(leaves), count[0]
 
 
+def _c08_trace(arg):
+    i, inst = arg
+    s = dsession.DSession(i + 1, inst, [])
+    for filt in (["dom"], []):
+        out, res = _outcome(lambda: best_filtered_leaves(s.instance, filt))
+        s._ev({"a": "BestFiltered", "bfilt": filt, "out": out,
+               "leaves": res[0] if out == "ok" else [], "nleaves": res[1] if out == "ok" else 0})
+    return s.trace()
+
+
 def c08():
     chk = Check("C08", "model_checking")
     mod = "MC_Opt_T.tla" if chk.tier == "thorough" else "MC_Opt_Q.tla"
     chk.mc(mod, "OSpec", {"InstFamily": "<- Fam"}, ["Inv_C08", "Inv_OptLowerBound"], timeout=3000)
     rng = random.Random(chk.seed + 8)
-    behs, _ = tlc_behaviours("c08", fam="FamA", filt="FiltNone", mode="complete",
-                             simulate=f"num={_n(chk, 300, 2000)}", workers=4)
+    behs, _ = tlc_behaviours("c08", fam="FamP", filt="FiltNone", mode="complete",
+                             simulate=f"num={_n(chk, 400, 2500)}", workers=4)
     insts, seen = [], set()
     for b in behs:
         k = repr(b["inst"])
         if k not in seen:
             seen.add(k)
             insts.append(b["inst"])
-    while len(insts) < _n(chk, 400, 3000):
-        insts.append(random_instance(rng, max_jobs=3, max_ops=3, max_m=3, durs=(1, 2, 3, 5)))
-    traces = []
-    for i, inst in enumerate(insts):
-        if sum(len(j) for j in inst) > 7:
-            continue
-        s = dsession.DSession(i + 1, inst, [])
-        for filt in (["dom"], []):
-            out, res = _outcome(lambda: best_filtered_leaves(s.instance, filt))
-            s._ev({"a": "BestFiltered", "bfilt": filt, "out": out,
-                   "leaves": res[0] if out == "ok" else [], "nleaves": res[1] if out == "ok" else 0})
-        traces.append(s.trace())
+    target = len(insts) + _n(chk, 1200, 8000)
+    while len(insts) < target:
+        # 3 jobs on 3 machines, a few flexible operations, positive durations, 5-8 operations: where a
+        # wrong end-time estimate can prune every optimal history
+        inst = []
+        for _ in range(3):
+            job = []
+            for _ in range(rng.randint(1, 3)):
+                ms = rng.sample([1, 2, 3], 2) if rng.random() < 0.3 else [rng.randint(1, 3)]
+                job.append({"ms": ms, "d": rng.randint(1, 6)})
+            inst.append(job)
+        if 5 <= sum(len(j) for j in inst) <= 8:
+            insts.append(inst)
+    insts = [x for x in insts if sum(len(j) for j in x) <= 8]
+    from concurrent.futures import ProcessPoolExecutor
+    with ProcessPoolExecutor(max_workers=12) as ex:
+        traces = list(ex.map(_c08_trace, list(enumerate(insts)), chunksize=16))
     chk.monitor(traces, source="real-dispatch-tree-under-real-filter")
     return chk.finish(
         "TLC: for every instance of the family with positive durations, min makespan over all histories that "
